@@ -57,7 +57,10 @@ fn build_chain(xot: &mut Xot, i: &Ids, cfgs: usize, with_c2: bool) -> Chain {
     let e2 = xot.new_element(n2);
     xot.append(e0, e1).unwrap();
     xot.append(e1, e2).unwrap();
-    let chain = vec![config(i, c0), config(i, c1), config(i, c2)];
+    // DEDUPORDER: the layout order used by the C15 harness, so that its reduced quick tier (the first
+    // CFG layouts) contains "same namespace under two prefixes on one element" and xmlns=""
+    let map: [usize; 8] = if sym::param("DEDUPORDER", 0) == 1 { [0, 1, 3, 5, 4, 2, 6, 7] } else { [0, 1, 2, 3, 4, 5, 6, 7] };
+    let chain = vec![config(i, map[c0]), config(i, map[c1]), config(i, map[c2])];
     for (el, decls) in [e0, e1, e2].iter().zip(chain.iter()) {
         for (p, n) in decls {
             xot.set_namespace(*el, *p, *n);
@@ -351,18 +354,21 @@ fn only_ws(s: &str) -> bool {
 
 /// compare reparsed pretty output with the original: only whitespace-only text
 /// nodes may have been added, and none where the property forbids it
-fn pretty_compare(xot: &Xot, orig: Node, got: Node, forbidden: bool, suppress: &[NameId]) {
+fn pretty_compare(xot: &Xot, orig: Node, got: Node, preserve: bool, inside: bool, suppress: &[NameId]) {
+    // preserve: inside the scope of xml:space="preserve" (ended by a nearer xml:space="default");
+    // inside: below an element with mixed content or an element of the suppress list (nothing ends that)
     let ko: Vec<Node> = xot.children(orig).collect();
     let kg: Vec<Node> = xot.children(got).collect();
     let mixed = ko.iter().any(|n| xot.is_text(*n));
     let space = xot.xml_space_name();
-    let here_forbidden = match xot.get_attribute(orig, space) {
+    let here_preserve = match xot.get_attribute(orig, space) {
         Some("preserve") => true,
         Some("default") => false,
-        _ => forbidden,
+        _ => preserve,
     };
     let suppressed = xot.is_element(orig) && suppress.contains(&xot.node_name(orig).unwrap());
-    let no_add = here_forbidden || mixed || suppressed;
+    let here_inside = inside || mixed || suppressed;
+    let no_add = here_preserve || here_inside;
     if no_add {
         sym::check("no-whitespace-added-where-forbidden", kg.len() == ko.len());
     }
@@ -380,8 +386,7 @@ fn pretty_compare(xot: &Xot, orig: Node, got: Node, forbidden: bool, suppress: &
         if xot.is_element(*o) {
             sym::check("same-element", xot.is_element(*g) && xot.shallow_equal(*o, *g));
             if xot.is_element(*g) {
-                // inside mixed content or a suppressed element nothing may be added further down either
-                pretty_compare(xot, *o, *g, here_forbidden || mixed || suppressed, suppress);
+                pretty_compare(xot, *o, *g, here_preserve, here_inside, suppress);
             }
         } else {
             sym::check("same-leaf", xot.deep_equal(*o, *g));
@@ -438,7 +443,7 @@ pub fn h_c14_pretty() {
                 Ok(d2) => {
                     let top = xot.document_element(d2).unwrap();
                     sym::check("root-element-same", xot.shallow_equal(a, top));
-                    pretty_compare(&xot, a, top, false, &suppress);
+                    pretty_compare(&xot, a, top, false, false, &suppress);
                 }
                 Err(_) => sym::check("serialised-text-is-accepted-by-the-parser", false),
             }
